@@ -57,7 +57,7 @@ pub fn components_json() -> J {
         )
 }
 
-pub const PROPERTY_IDS: &[&str] = &["C01", "C03", "C04"];
+pub const PROPERTY_IDS: &[&str] = &["C01", "C03", "C04", "C09", "C10"];
 
 macro_rules! dispatch {
     ($id:expr, $f:ident, $($arg:expr),*) => {
@@ -65,6 +65,8 @@ macro_rules! dispatch {
             "C01" => $f(&props::c01::C01, $($arg),*),
             "C03" => $f(&props::c03::C03, $($arg),*),
             "C04" => $f(&props::c04::C04, $($arg),*),
+            "C09" => $f(&props::c09::C09, $($arg),*),
+            "C10" => $f(&props::c10::C10, $($arg),*),
             other => {
                 eprintln!("unknown or unclaimed property '{}'; claimed: {:?}", other, PROPERTY_IDS);
                 EXIT_HARNESS
